@@ -323,6 +323,9 @@ pub struct Planted {
     pub label: String,
     /// give the first row of every nonnegative(-like) cone an infinite right-hand side (1e30)
     pub inf_rows: bool,
+    /// give the first row of every nonnegative(-like) cone a very loose but finite right-hand side (1e18: below
+    /// the infinity bound, so the row is kept and the data span 18 orders of magnitude)
+    pub loose_rows: bool,
     ndev: usize,
 }
 
@@ -351,8 +354,14 @@ impl Planted {
             xids,
             label: label.to_string(),
             inf_rows: false,
+            loose_rows: false,
             ndev,
         }
+    }
+    pub fn with_loose_rows(mut self) -> Self {
+        self.loose_rows = true;
+        self.label = format!("{}-looserows", self.label);
+        self
     }
     pub fn with_inf_rows(mut self) -> Self {
         self.inf_rows = true;
@@ -404,11 +413,11 @@ impl Planted {
         for dv in &chosen {
             apply_dev(&mut p, dv);
         }
-        if self.inf_rows {
+        if self.inf_rows || self.loose_rows {
             let mut off = 0;
             for c in &p.cones.clone() {
                 if matches!(c, ConeSpec::NN(k) if *k > 0) || matches!(c, ConeSpec::SOC(1) | ConeSpec::PSD(1)) {
-                    p.b[off] = 1e30;
+                    p.b[off] = if self.inf_rows { 1e30 } else { 1e18 };
                 }
                 off += c.numel();
             }
@@ -547,6 +556,8 @@ pub fn sweep_spaces(judge: Judge, tier: &str) -> Vec<Box<dyn Space>> {
             v.push(Box::new(Planted::new(l.clone(), *n, s1.clone(), judge, 0, xids.clone(), "S<=1")));
         }
         if l.iter().any(|c| matches!(c, NN(k) if *k > 0) || matches!(c, SOC(1) | PSD(1))) {
+            // "no bound" written as 1e18: kept rows, 18 orders of magnitude in b
+            v.push(Box::new(Planted::new(l.clone(), *n, if thorough { s1.clone() } else { s0.clone() }, judge, if thorough { 1 } else { 0 }, vec![5 % 3u64.pow(*n as u32)], "default").with_loose_rows()));
             let dev = if thorough { 1 } else { 0 };
             v.push(Box::new(Planted::new(l.clone(), *n, s1.clone(), judge, dev, if thorough { xt.iter().cloned().filter(|x| *x < 3u64.pow(*n as u32)).collect() } else { xq.iter().cloned().filter(|x| *x < 3u64.pow(*n as u32)).collect() }, "S<=1").with_inf_rows()));
         }
